@@ -115,6 +115,13 @@ CHECKS = {
          "NetSource batches.",
          "No sockets: chunks are appended to TcpClient.buffer and read_*_buffer() is called directly (as run() does); timestamps ignored.",
          "DESIGN.md section 5 C16, Appendix B"),
+ "C18": ("TLA+ spec of the uplink formats: AP formed by polynomial multiplication (top 24 bits of A*G) XOR parity, address recovered by "
+         "polynomial division (independent formulations, TLC checks they invert each other), field layouts of UF4/5/20/21 and UF11; "
+         "the full field product replayed into pyModeS.decoder.uplink and validated by TLC",
+         "UF(32) x RR(32) x DI(8) x IIS/SIS x LOS/LSS (quick: every 3rd IIS/SIS value) and UF11 x PR x CL x IC exhaustively; 600+ addresses "
+         "x both lengths x payload patterns; random frames; uplink_fields compared with the single-field semantics ('' = absent).",
+         "Trusts the field positions of Annex 10 as transcribed in spec/Uplink.tla; uplink_fields' '' / False tokens are read as 'absent'.",
+         "DESIGN.md section 5 C18"),
 }
 
 PENDING = {}
